@@ -225,6 +225,10 @@ class RF24:
             for i, val in enumerate(self._tx_address):
                 self._pipes[0][i] = val  # type: ignore[assignment, index]
             self._reg_write_bytes(RX_ADDR_P0, self._tx_address)
+            if not self._config & 1 and not self._open_pipes & 1:
+                # in TX mode the ACK packets are received with pipe 0
+                self._open_pipes |= 1
+                self._reg_write(OPEN_PIPES, self._open_pipes)
 
     def close_rx_pipe(self, pipe_number: int) -> None:
         """Close a specific data pipe from RX transmissions."""
